@@ -4,6 +4,7 @@
 From Coq Require Import List ZArith NArith Bool.
 From GV Require Import Model.Metrics Proofs.MetricsP Gen.MetricsProg Inst.Inst_C10.
 From GV Require Import Model.Conc Proofs.ConcP Model.Footprint Proofs.FootprintP Gen.Globals.
+From GV Require Import Model.LockOrder Proofs.LockOrderP Gen.LockTable.
 Import ListNotations.
 Local Open Scope Z_scope.
 
@@ -113,6 +114,40 @@ Theorem C10_common_lock_orders :
     exists m, has_rel t1 m mid = true /\ In m (map fst (a_held s1)) /\ In m (map fst (a_held s2)).
 Proof. exact common_lock_orders. Qed.
 
+(* ---- the goroutines finish: no deadlock on the library's mutexes ----
+   Any number of goroutines; each holds some mutexes (read or write mode) and may be blocked in a Lock / RLock call.
+   sync.RWMutex semantics including WRITER PREFERENCE (Model/LockOrder.v: a blocked Lock blocks every new RLock).
+   Every blocked goroutine is blocked at a site of the acquisition table regenerated from the source and holds only
+   mutexes that may be held there (tools/gotables/acquire.go: may-analysis).  Then, whenever somebody is blocked, some
+   blocked call can return, or some goroutine that holds a mutex is running (not blocked): no state is a deadlock. *)
+Theorem C10_no_deadlock_by_lock_order :
+  forall ts : lockstate,
+    (forall t, In t ts -> at_row acquisitions t) ->
+    (exists t, In t ts /\ waiting t = true) ->
+    (exists t, In t ts /\ waiting t = true /\ can_enter ts t = true) \/
+    (exists t, In t ts /\ l_held t <> [] /\ waiting t = false).
+Proof. exact (no_deadlock lock_ranks acquisitions lock_order_ok). Qed.
+
+Theorem C10_never_deadlocked :
+  forall ts : lockstate, (forall t, In t ts -> at_row acquisitions t) -> deadlocked ts = false.
+Proof. exact (never_deadlocked lock_ranks acquisitions lock_order_ok). Qed.
+
+(* what the discipline is for: a read lock taken again while it is held, with a writer arriving in between, blocks
+   everybody for ever (the blocked goroutines ARE at rows of that two-row table; no rank accepts it) *)
+Theorem C10_reentrant_read_lock_refuted :
+  deadlocked reentrant_rlock_state = true /\
+  (forall t, In t reentrant_rlock_state -> waiting t = true /\ can_enter reentrant_rlock_state t = false) /\
+  (forall t, In t reentrant_rlock_state ->
+     at_row [ {| q_mutex := 7%N; q_mode := MR; q_may := [7%N] |}; {| q_mutex := 7%N; q_mode := MW; q_may := [] |} ] t) /\
+  (forall ranks, acq_table_ok ranks [ {| q_mutex := 7%N; q_mode := MR; q_may := [7%N] |}; {| q_mutex := 7%N; q_mode := MW; q_may := [] |} ] = false).
+Proof. exact reentrant_rlock_deadlocks. Qed.
+
+(* and two mutexes taken in opposite orders *)
+Theorem C10_lock_order_inversion_refuted :
+  deadlocked abba_state = true /\
+  (forall ranks, acq_table_ok ranks [ {| q_mutex := 2%N; q_mode := MW; q_may := [1%N] |}; {| q_mutex := 1%N; q_mode := MW; q_may := [2%N] |} ] = false).
+Proof. exact abba_deadlocks. Qed.
+
 Print Assumptions C10_metrics_totals_exact.
 Print Assumptions C10_monitor_totals_exact.
 Print Assumptions C10_counters_exact_always.
@@ -122,6 +157,10 @@ Print Assumptions C10_max_single_attempt_refuted.
 Print Assumptions C10_results_sequential.
 Print Assumptions C10_footprint_race_free.
 Print Assumptions C10_common_lock_orders.
+Print Assumptions C10_no_deadlock_by_lock_order.
+Print Assumptions C10_never_deadlocked.
+Print Assumptions C10_reentrant_read_lock_refuted.
+Print Assumptions C10_lock_order_inversion_refuted.
 (* the hypotheses are satisfiable by a non-trivial state: three goroutines record tokenizations of sizes 120, 7
    and 300 (the second with an error) and one records a parse; an interleaved schedule; all finish; the totals
    are the true ones *)
@@ -187,3 +226,22 @@ Example ex_unguarded_rejected :
   table_ok [] [ {| a_cell := 1%N; a_write := true; a_kind := KPlain; a_held := []; a_once := None; a_after := []; a_init := false |};
                 {| a_cell := 1%N; a_write := false; a_kind := KPlain; a_held := [(2%N, false)]; a_once := None; a_after := []; a_init := false |} ] = false.
 Proof. vm_compute. reflexivity. Qed.
+
+(* lock discipline: the table is not vacuous, and its hypothesis is satisfiable by a non-trivial state: a reader of the
+   metrics error breakdown holds the first mutex of the table while two recorders are blocked on it *)
+Example ex_acquisitions_nonempty : (1 <=? length acquisitions)%nat = true.
+Proof. vm_compute. reflexivity. Qed.
+Definition ex_lock_state : lockstate :=
+  match acquisitions with
+  | a :: _ => [ {| l_held := [(q_mutex a, MR)]; l_wait := None |};
+                {| l_held := []; l_wait := Some (q_mutex a, q_mode a) |};
+                {| l_held := []; l_wait := Some (q_mutex a, q_mode a) |} ]
+  | [] => []
+  end.
+Example ex_lock_state_at_rows : forall t, In t ex_lock_state -> at_row acquisitions t.
+Proof.
+  unfold ex_lock_state. destruct acquisitions as [|a r] eqn:E; [intros t []|].
+  intros t [<-|[<-|[<-|[]]]]; cbn; auto; exists a; (split; [now left|]); repeat split; auto; intros h [].
+Qed.
+Example ex_lock_state_not_deadlocked : deadlocked ex_lock_state = false.
+Proof. apply C10_never_deadlocked. exact ex_lock_state_at_rows. Qed.
